@@ -1,6 +1,7 @@
 #!/venv/bin/python
-"""Applies every kept seeded change to /repo (never committed), runs the property's quick check, undoes it,
-and records the outcome in seeded/<id>/meta.json."""
+"""Applies every kept seeded change to a SCRATCH COPY of /repo's HEAD (under /var/tmp, removed afterwards), runs the
+property's quick check against that copy (CGSMILES_REPO) and records the outcome in seeded/<id>/meta.json.
+/repo itself is never touched, so this can run while other checks use /repo."""
 import json
 import os
 import subprocess
@@ -9,31 +10,45 @@ import sys
 V = os.path.dirname(os.path.dirname(os.path.abspath(__file__)))
 props = {json.loads(l)["id"]: json.loads(l) for l in open(os.path.join(V, "properties.jsonl"))}
 only = sys.argv[1:]
-for d in sorted(os.listdir(os.path.join(V, "seeded"))):
-    if only and d not in only and d[:3] not in only:
-        continue
-    sd = os.path.join(V, "seeded", d)
-    pid = d[:3]
-    patch = os.path.join(sd, "patch_current.diff" if os.path.exists(os.path.join(sd, "patch_current.diff")) else "patch.diff")
-    assert subprocess.run(["git", "-C", "/repo", "status", "--porcelain", "--untracked-files=no"], capture_output=True, text=True).stdout == ""
-    ap = subprocess.run(["git", "-C", "/repo", "apply", patch], capture_output=True, text=True)
-    if ap.returncode != 0:
-        ap = subprocess.run("cd /repo && patch -p1 -s -F3 < %s" % patch, shell=True, capture_output=True, text=True)
-    applied = ap.returncode == 0
-    subprocess.run("cd /repo && find . -name '*.orig' -o -name '*.rej' | xargs rm -f", shell=True)
-    res = {"applied": applied}
-    if applied:
-        t = subprocess.run("cd /repo && PBR_VERSION=0.0.1 /venv/bin/python -m pytest -q -p no:cacheprovider cgsmiles 2>&1 | tail -1", shell=True, capture_output=True, text=True).stdout.strip()
-        dm = subprocess.run("cd /repo && PBR_VERSION=0.0.1 /venv/bin/python %s/demo.py" % sd, shell=True, capture_output=True, text=True)
-        p = subprocess.run([os.path.join(V, "check"), pid, "--tier", "quick"], capture_output=True, text=True, cwd=V)
-        viol = [l for l in p.stdout.splitlines() if l.startswith("VIOLATION")]
-        res.update({"tests_with_change": t, "demo_rc_with_change_on_current_tree": dm.returncode, "check": pid, "check_rc": p.returncode,
-                    "violations": len(viol), "first_clauses": sorted({l.split("clause=")[-1] for l in viol})[:6]})
-    subprocess.run(["git", "-C", "/repo", "checkout", "--", "."])
-    meta = {"id": d, "breaks_property": pid, "property_title": props[pid]["title"],
-            "patch": os.path.basename(patch), "needs_to_manifest": "see notes.md",
-            "confirmed_on_pristine": "tools/confirm_seed.sh: test-suite 150 passed with the change; demo exits 0 without and 1 with it (scratch worktree of the pinned commit)",
-            "ran": "tools/seed_matrix.py: git apply to /repo, ./check %s --tier quick, git checkout -- ." % pid,
-            "result": res, "detected": bool(res.get("check_rc") == 1)}
-    json.dump(meta, open(os.path.join(sd, "meta.json"), "w"), indent=1)
-    print(d, "DETECTED" if meta["detected"] else "missed", res)
+import shutil
+import tempfile
+
+SCR = tempfile.mkdtemp(prefix="seedrepo-", dir="/var/tmp")
+subprocess.run(["git", "-C", "/repo", "worktree", "add", "-q", "--detach", os.path.join(SCR, "repo"), "HEAD"], check=True)
+R = os.path.join(SCR, "repo")
+try:
+    for d in sorted(os.listdir(os.path.join(V, "seeded"))):
+        if only and d not in only and d[:3] not in only and not any(d.endswith(o) for o in only if o.startswith("*")):
+            continue
+        sd = os.path.join(V, "seeded", d)
+        pid = d[:3]
+        patch = os.path.join(sd, "patch_current.diff" if os.path.exists(os.path.join(sd, "patch_current.diff")) else "patch.diff")
+        subprocess.run(["git", "-C", R, "checkout", "-q", "--", "."])
+        ap = subprocess.run(["git", "-C", R, "apply", patch], capture_output=True, text=True)
+        if ap.returncode != 0:
+            ap = subprocess.run("cd %s && patch -p1 -s -F3 < %s" % (R, patch), shell=True, capture_output=True, text=True)
+        applied = ap.returncode == 0
+        subprocess.run("cd %s && find . -name '*.orig' -o -name '*.rej' | xargs rm -f" % R, shell=True)
+        res = {"applied": applied}
+        env = dict(os.environ, CGSMILES_REPO=R, PBR_VERSION="0.0.1")
+        if applied:
+            t = subprocess.run("cd %s && /venv/bin/python -m pytest -q -p no:cacheprovider cgsmiles 2>&1 | tail -1" % R, shell=True,
+                               capture_output=True, text=True, env=env).stdout.strip()
+            dm = subprocess.run("cd %s && /venv/bin/python %s/demo.py" % (R, sd), shell=True, capture_output=True, text=True, env=env)
+            p = subprocess.run([os.path.join(V, "check"), pid, "--tier", "quick"], capture_output=True, text=True, cwd=V, env=env)
+            viol = [l for l in p.stdout.splitlines() if l.startswith("VIOLATION")]
+            res.update({"tests_with_change": t, "demo_rc_with_change_on_current_tree": dm.returncode, "check": pid, "check_rc": p.returncode,
+                        "violations": len(viol), "first_clauses": sorted({l.split("clause=")[-1] for l in viol})[:6]})
+        round2 = d[3:] in ("c", "d")
+        meta = {"id": d, "breaks_property": pid, "property_title": props[pid]["title"],
+                "patch": os.path.basename(patch), "needs_to_manifest": "see notes.md",
+                "confirmed": ("tools/confirm_seed2.sh: scratch worktree of the repaired tree" if round2 else
+                              "tools/confirm_seed.sh: scratch worktree of the pinned commit") +
+                             ": test-suite 150 passed with the change; demo exits 0 without and 1 with it",
+                "ran": "tools/seed_matrix.py: patch applied to a scratch worktree of /repo HEAD, CGSMILES_REPO=<copy> ./check %s --tier quick" % pid,
+                "result": res, "detected": bool(res.get("check_rc") == 1)}
+        json.dump(meta, open(os.path.join(sd, "meta.json"), "w"), indent=1)
+        print(d, "DETECTED" if meta["detected"] else "missed", res, flush=True)
+finally:
+    subprocess.run(["git", "-C", "/repo", "worktree", "remove", "--force", R])
+    shutil.rmtree(SCR, ignore_errors=True)
